@@ -61,8 +61,13 @@ func TestC18BlockIdentity(t *testing.T) {
 			var forged []item
 			for k := 0; k < nforged; k++ {
 				f := vnode.CloneBlock(genuine)
-				kind := rapid.SampledFrom([]string{"stateroot", "timestamp", "drop-tx", "txroot", "prev", "confirms", "coinbase", "id-of-other"}).Draw(t, "forgeKind")
+				kind := rapid.SampledFrom([]string{"stateroot", "timestamp", "drop-tx", "txroot", "prev", "confirms", "coinbase", "id-of-other", "no-header", "no-body"}).Draw(t, "forgeKind")
 				switch kind {
+				case "no-header":
+					// a block message need not carry a header at all (the announced identifier is kept)
+					f.Header = nil
+				case "no-body":
+					f.Body = nil
 				case "stateroot":
 					f.Header.BlocksRootHash = append([]byte{}, f.Header.BlocksRootHash...)
 					f.Header.BlocksRootHash[0] ^= 1
@@ -96,7 +101,7 @@ func TestC18BlockIdentity(t *testing.T) {
 					}
 				}
 				// the identifier field is whatever the sender announces: NOT recomputed
-				if bytes.Equal(digestOf(f), f.Hash) {
+				if f.Header != nil && f.Body != nil && bytes.Equal(digestOf(f), f.Hash) {
 					continue
 				}
 				forged = append(forged, item{b: f, desc: fmt.Sprintf("forged#%d(%s)", i, kind)})
